@@ -29,7 +29,10 @@ PROPS["C01"] = {
                  # phase angle(w)*k^2/2 in long double (/repo 4e9c74f), the Float model in double -> difference up to ~eps*|arg w|*N^2/2 (observed 8e-13 for
                  # czt, 1.2e-11 for a prime near 10^5): 1e-9.  A wrong index / sign / twiddle changes outputs by O(1) relative.
                  "tol": {"fft": (1e-11, 0.0), "rfft": (1e-11, 0.0), "fftn": (1e-11, 0.0), "rfftn": (1e-11, 0.0),
-                         "czt": (1e-9, 0.0), "fftg": (1e-9, 0.0), "rfftg": (1e-9, 0.0)}}],
+                         "czt": (1e-9, 0.0), "fftg": (1e-9, 0.0), "rfftg": (1e-9, 0.0)},
+                 # czt outputs can cancel to ~eps of the inputs (a start point a with a tiny component sends an O(1) input to outputs of 1e-9 and 1e-16):
+                 # the tolerance of a czt line is relative to the largest input sample / parameter as well as the largest output
+                 "tol_scale_inputs": ["czt"]}],
     "rule": "ORACLE (long-double direct DFT, relative l2 error <= 32 n eps): EVERY n in 1..512 (quick) / 1..4096 (thorough), all bins, x 8 input classes "
             "{complex Gaussian, impulse at 0 / random / n-1, constant, single complex tone, alternating signs, 1e+-150 dynamic range} x 6 entry points "
             "{fft(arr_cmplx), FftPlan(n), fft(arr_real), rfft, FftPlanR(n), fft(complex(x))} + real-vs-complexified and conjugate-symmetry comparisons + a 9th call "
